@@ -285,6 +285,39 @@ static std::string run(const std::vector<std::string>& a) {
                           if (!salt.empty()) memcpy(ss.data(), salt.data(), salt.size()); KeyIv r = hkdf_key_iv_256(si, ss, ctx); "ok " + hx(r.key.data(), 32) + " " + hx(r.iv.data(), 12); }));
         return agree_guarded(fs);
     }
+    if (op == "tokgen") {
+        TypeHash ty = type_of(a[1]); Bytes k = bx(a[2]); bool nofp = a[3] == "none"; std::string fp = nofp ? "" : str_of(bx(a[3])); int iv = atoi(a[4].c_str());
+        set_clock(a[5], a[6], a[7]);
+        secure_buffer<uint8_t> sk(k.size()); if (!k.empty()) memcpy(sk.data(), k.data(), k.size());
+        std::vector<std::pair<std::string, Thunk> > fs;
+        if (nofp) {
+            FORM("vec", "ok " + hxs(generate_time_token(k, iv, ty)));
+            FORM("secure", "ok " + hxs(generate_time_token(sk, iv, ty)));
+            FORM("str", "ok " + hxs(generate_time_token(str_of(k), iv, ty)));
+        } else {
+            FORM("vec", "ok " + hxs(generate_time_token(k, fp, iv, ty)));
+            FORM("secure", "ok " + hxs(generate_time_token(sk, fp, iv, ty)));
+            FORM("str", "ok " + hxs(generate_time_token(str_of(k), fp, iv, ty)));
+        }
+        return agree_guarded(fs);
+    }
+    if (op == "tokval") {
+        TypeHash ty = type_of(a[1]); std::string tok = str_of(bx(a[2])); Bytes k = bx(a[3]); bool nofp = a[4] == "none"; std::string fp = nofp ? "" : str_of(bx(a[4]));
+        int iv = atoi(a[5].c_str()); set_clock(a[6], a[7], a[8]);
+        secure_buffer<uint8_t> sk(k.size()); if (!k.empty()) memcpy(sk.data(), k.data(), k.size());
+        std::vector<std::pair<std::string, Thunk> > fs;
+        if (nofp) {
+            FORM("vec", ok_bool(is_token_valid(tok, k, iv, ty)));
+            FORM("secure", ok_bool(is_token_valid(tok, sk, iv, ty)));
+            FORM("str", ok_bool(is_token_valid(tok, str_of(k), iv, ty)));
+        } else {
+            FORM("vec", ok_bool(is_token_valid(tok, k, fp, iv, ty)));
+            FORM("secure", ok_bool(is_token_valid(tok, sk, fp, iv, ty)));
+            FORM("str", ok_bool(is_token_valid(tok, str_of(k), fp, iv, ty)));
+        }
+        return agree_guarded(fs);
+    }
+    if (op == "tostring") { long long z = strtoll(a[1].c_str(), 0, 10); return hxs(std::to_string((time_t)z)); }
     if (op == "hmac") return hmac_forms(type_of(a[1]), bx(a[2]), bx(a[3]));
     if (op == "hmacstr") return hmacstr_forms(type_of(a[1]), bx(a[2]), bx(a[3]), a[4] == "1", a[5] == "1");
     if (op == "tohex") return hxs(to_hex(str_of(bx(a[2])), a[1] == "1"));
